@@ -1,0 +1,9 @@
+//go:build !verif
+
+package dcs
+
+import "github.com/go-zookeeper/zk"
+
+func verifZKConnect() func(config *ZookeeperConfig, logger zk.Logger) (*zk.Conn, <-chan zk.Event, error) {
+	return nil
+}
